@@ -162,6 +162,8 @@ static void shim_end(bool first_for_is_init) {
         }
     }
     std::cout << "shim " << ct.regions << " " << ct.leaves << " " << ct.forks << " " << ct.seqs << "\n";
+    // every parallel_reduce of the run, in call order, as a term of Model/Sched.lean's `Sched` (leaves with their sub-ranges)
+    for (auto &l : ct.log) if (l.compare(0, 7, "reduce ") == 0) std::cout << "sched " << l.substr(7) << "\n";
     for (std::size_t i = 0; i < ct.log.size() && i < 3; i++) std::cout << "# " << ct.log[i].substr(0, 200) << "\n";
 }
 #else
